@@ -1364,3 +1364,74 @@ func ruleResolveFirst(c *Ctx, r *Report) {
 	}
 	r.analysed(rule, witnessFuncs...)
 }
+
+// ---------------------------------------------------------------------------
+// R-CUT-REBASE (added with fix F13): a cut pops its barrier off the stack, so the rest of the clause body
+// must not keep using that barrier. The thunk handed to the cut constructor resumes the body with the
+// cut's own promise (the value the constructor returns, which stays on the stack) as the new barrier.
+
+func ruleCutRebase(c *Ctx, r *Report) {
+	const rule = "R-CUT-REBASE"
+	exec := c.method("VM", "exec")
+	if exec == nil {
+		r.undecided(rule, "anchor:exec", "-", "locate exec", "not found")
+		return
+	}
+	pidx := -1
+	for i, p := range exec.Params {
+		if c.isPromisePtr(p.Type()) {
+			pidx = i
+		}
+	}
+	// cut constructors: functions whose fresh promise gets a cutParent
+	ctors := map[*ssa.Function]bool{}
+	for _, s := range c.storesIntoStruct(enginePkgPath, "Promise") {
+		if len(s.path) > 0 && s.path[0] == "cutParent" && freshAlloc(s.base) {
+			ctors[s.fn] = true
+		}
+	}
+	n := 0
+	for _, f := range withAnon(exec) {
+		eachInstr(f, func(in ssa.Instruction) {
+			call, ok := in.(*ssa.Call)
+			if !ok || !ctors[call.Call.StaticCallee()] {
+				return
+			}
+			// the thunk argument
+			var thunk *ssa.Function
+			for _, a := range call.Call.Args {
+				if mc, ok := a.(*ssa.MakeClosure); ok {
+					thunk = mc.Fn.(*ssa.Function)
+				}
+			}
+			if thunk == nil {
+				return
+			}
+			eachInstr(thunk, func(in2 ssa.Instruction) {
+				ci, ok := in2.(ssa.CallInstruction)
+				if !ok || ci.Common().StaticCallee() != exec || pidx < 0 {
+					return
+				}
+				n++
+				key := fmt.Sprintf("%s/exec.cutParent-after-cut", fname(thunk))
+				desc := "after a cut the body continues with the cut's own promise as barrier (the old barrier has just been popped)"
+				good := true
+				var other ssa.Value
+				for _, l := range c.originSet(ci.Common().Args[pidx]) {
+					if l != ssa.Value(call) {
+						good, other = false, l
+					}
+				}
+				if good {
+					r.ok(rule, key, c.at(ci), desc, "the barrier argument is the promise returned by this cut", true)
+				} else {
+					r.bad(rule, key, c.at(ci), desc, "the body keeps barrier "+valName(other)+", which this cut removes from the stack: a second cut in the same body does not find it and pops the whole stack (older choice points and catch frames are lost)")
+				}
+			})
+		})
+	}
+	if n == 0 {
+		r.bad(rule, fname(exec)+"/no-cut-thunk", c.Pos(exec.Pos()), "after a cut the body continues with the cut's own promise as barrier", "no resumption of the body inside a cut thunk found")
+	}
+	r.analysed(rule, fname(exec))
+}
